@@ -50,7 +50,7 @@ def run(rep: Report, repo: Repo):
         'rewrites the moved element\'s index; every store to a line\'s reader/driver end is followed by the matching back-reference '
         'store; Line.remove clears both slots and squeezes fork outputs; constructor ordering; stats totals.')
     rep.trusted = ['python ast; attribute receivers other than `self` inside a class with its own same-named attribute are taken to be Circuit objects']
-    rep.assumptions = ['NOT DECIDED: the for-all-histories invariant itself (interaction of many edits); GrowingList.free_index semantics beyond the ordering rule',
+    rep.assumptions = ['BOUNDED: the for-all-histories invariant is decided on 300 generated edit histories (C09.history: the classes\' own code evaluated against a shadow model), not for every history',
                        'well-formed use as stated in the property (explicit pins only on free positions, nodes removed after their lines)']
     cmod = repo.mod('circuit')
     own = own_container_classes(repo)
